@@ -8,29 +8,52 @@ pub(crate) mod t_macro;
 #[path = "/repo/leptos_i18n_macro/src/utils/mod.rs"]
 pub(crate) mod utils;
 
+mod index;
+mod project;
+mod symeval;
+mod term;
+
+use std::io::{BufRead, Write};
+
 fn main() {
     let args: Vec<String> = std::env::args().collect();
     match args.get(1).map(|s| s.as_str()) {
         Some("gen") => {
-            let dir = &args[2];
-            std::env::set_var("CARGO_MANIFEST_DIR", dir);
-            let r = std::panic::catch_unwind(|| load_locales::load_locales());
-            match r {
-                Ok(Ok(ts)) => {
-                    println!("{}", ts);
-                }
-                Ok(Err(e)) => {
+            // print the generated tokens of one project
+            std::env::set_var("CARGO_MANIFEST_DIR", &args[2]);
+            match load_locales::load_locales() {
+                Ok(ts) => println!("{}", ts),
+                Err(e) => {
                     eprintln!("ERR {}", e);
                     std::process::exit(3);
                 }
-                Err(_) => {
-                    eprintln!("PANIC");
-                    std::process::exit(4);
+            }
+        }
+        Some("eval") => {
+            let out = project::process(&args[2]);
+            println!("{}", serde_json::to_string(&out).unwrap());
+        }
+        Some("batch") => {
+            std::panic::set_hook(Box::new(|_| {}));
+            let stdin = std::io::stdin();
+            let stdout = std::io::stdout();
+            for line in stdin.lock().lines() {
+                let line = match line {
+                    Ok(l) => l,
+                    Err(_) => break,
+                };
+                let dir = line.trim();
+                if dir.is_empty() {
+                    continue;
                 }
+                let out = project::process(dir);
+                let mut o = stdout.lock();
+                writeln!(o, "{}", serde_json::to_string(&out).unwrap()).unwrap();
+                o.flush().unwrap();
             }
         }
         _ => {
-            eprintln!("usage");
+            eprintln!("usage: verif-host gen|eval <project dir> | batch < dirs");
             std::process::exit(2);
         }
     }
